@@ -142,6 +142,9 @@ struct Ledger {
     /// A listener.accept() on this side was abandoned by the driver's virtual time bound: like a
     /// cancelled accept it may already have accepted a request without a recorded decision.
     accept_abandoned: [bool; 2],
+    /// connect_ext calls that have started and not yet returned, per side: such a call may already
+    /// hold a request credit without being counted in `unresolved` yet.
+    attempting: [i32; 2],
 }
 
 type Pair = (chmux::Sender, chmux::Receiver);
@@ -314,11 +317,17 @@ pub async fn execute(case: &Case) -> Run {
                 let side = *side;
                 // connect_ext itself may wait for a request credit (wait=true): run it in the task.
                 tasks.push(spawn_actor(async move {
-                    let unresolved_before = ledger2.lock().unwrap().unresolved[side as usize];
+                    let unresolved_before = {
+                        let mut l = ledger2.lock().unwrap();
+                        let n = l.unresolved[side as usize] + l.attempting[side as usize];
+                        l.attempting[side as usize] += 1;
+                        n
+                    };
                     let c = match client.connect_ext(Some(req), wait).await {
                         Ok(c) => c,
                         Err(e) => {
                             let mut l = ledger2.lock().unwrap();
+                            l.attempting[side as usize] -= 1;
                             match e {
                                 ConnectError::TooManyPendingConnectionRequests if !wait => {
                                     l.classes.push("too-many-pending".into());
@@ -337,6 +346,7 @@ pub async fn execute(case: &Case) -> Run {
                     {
                         let mut l = ledger2.lock().unwrap();
                         l.issued.insert(id, (side, wait));
+                        l.attempting[side as usize] -= 1;
                         l.unresolved[side as usize] += 1;
                     }
                     let res = CancelAfter::new(c, cancel).await;
@@ -376,9 +386,14 @@ pub async fn execute(case: &Case) -> Run {
                 let max_ports = sides[s].cfg.max_ports;
                 tasks.push(spawn_actor(async move {
                     let alloc = client.port_allocator();
+                    ledger2.lock().unwrap().attempting[side as usize] += 1;
                     let r = client.connect_ext(None, wait).await;
-                    if r.is_ok() {
-                        ledger2.lock().unwrap().unresolved[side as usize] += 1;
+                    {
+                        let mut l = ledger2.lock().unwrap();
+                        l.attempting[side as usize] -= 1;
+                        if r.is_ok() {
+                            l.unresolved[side as usize] += 1;
+                        }
                     }
                     let r = match r {
                         Ok(c) => {
@@ -597,7 +612,10 @@ pub async fn execute(case: &Case) -> Run {
                 let idc = next_id;
                 next_id += 1;
                 let l = sides[1 - s].listener.as_mut().unwrap();
-                let connect = match client.connect_ext(Some(PortReq::new(p1).with_id(idc)), false).await {
+                ledger.lock().unwrap().attempting[s] += 1;
+                let connect = client.connect_ext(Some(PortReq::new(p1).with_id(idc)), false).await;
+                ledger.lock().unwrap().attempting[s] -= 1;
+                let connect = match connect {
                     Ok(c) => c,
                     Err(_) => continue,
                 };
@@ -629,7 +647,10 @@ pub async fn execute(case: &Case) -> Run {
                 let Some(p2) = client.port_allocator().try_allocate() else { continue };
                 let id2 = next_id;
                 next_id += 1;
-                let Ok(mut c2) = client.connect_ext(Some(PortReq::new(p2).with_id(id2)), false).await else { continue };
+                ledger.lock().unwrap().attempting[s] += 1;
+                let c2 = client.connect_ext(Some(PortReq::new(p2).with_id(id2)), false).await;
+                ledger.lock().unwrap().attempting[s] -= 1;
+                let Ok(mut c2) = c2 else { continue };
                 {
                     let mut l = ledger.lock().unwrap();
                     l.issued.insert(id2, (*side, false));
